@@ -209,6 +209,12 @@ pub fn write_replay(dir: &Path, prop: &str, tier: Tier, seed: u64, runno: u64, v
 pub fn write_crash_replay(dir: &Path, prop: &str, tier: Tier, seed: u64, runno: u64, profile: &str, status: &str) -> PathBuf {
     let _ = std::fs::create_dir_all(dir);
     let path = dir.join(format!("{prop}-{profile}-s{seed}-r{runno}-abort.json"));
+    // what the run was about: its scenario and swarm choices (built in a child, not executed)
+    let me = std::env::current_exe().ok();
+    let described = me.and_then(|m| Command::new(m).args(["describe", prop, "--tier", tier_name(tier), "--seed", &seed.to_string(), "--run", &runno.to_string()]).output().ok()).map(|o| String::from_utf8_lossy(&o.stdout).into_owned()).unwrap_or_default();
+    let mut lines = described.lines();
+    let scenario = lines.next().unwrap_or("").to_string();
+    let swarm = lines.next().unwrap_or("").to_string();
     let j = J::obj()
         .with("property", J::s(prop))
         .with("rule", J::s(format!("{prop}.process_abort")))
@@ -218,6 +224,8 @@ pub fn write_crash_replay(dir: &Path, prop: &str, tier: Tier, seed: u64, runno: 
         .with("tier", J::s(tier_name(tier)))
         .with("verif_seed", J::i(seed as i64))
         .with("run", J::i(runno as i64))
+        .with("scenario", J::s(scenario))
+        .with("swarm_choices", J::s(swarm))
         .with("crash", J::Bool(true));
     let _ = std::fs::write(&path, j.dump());
     path
